@@ -15,6 +15,7 @@ import (
 	"verifharness/internal/ev"
 	"verifharness/internal/gen"
 	"verifharness/internal/kf"
+	"github.com/apmckinlay/gsuneido/dbms/query"
 )
 
 // ---------------------------------------------------------------- program
@@ -43,6 +44,10 @@ type Program struct {
 	Schemas []string `json:"schemas"`
 	MaxAge  int      `json:"maxage"`
 	Instrs  []Instr  `json:"instrs"`
+	// C44: which tables have a trigger; the trigger throws when column a of
+	// the old or new row equals valDomain[ThrowOn] (-1: never)
+	Trig    []bool `json:"trig,omitempty"`
+	ThrowOn int    `json:"throwon,omitempty"`
 }
 
 // GenOpts tunes the program generator per property.
@@ -53,12 +58,13 @@ type GenOpts struct {
 	Weights   map[string]int // op -> weight
 	ValRange  int            // size of the value domain used (<= len(valDomain))
 	LowMaxAge bool
+	Triggers  bool
 }
 
 var defaultWeights = map[string]int{
 	"begin": 6, "beginread": 2, "lookup": 8, "scan": 8, "output": 14, "update": 8, "delete": 6,
 	"complete": 8, "abort": 2, "persist": 2, "mergesync": 2, "tick": 0, "admin": 0, "reread": 3,
-	"scanmod": 2,
+	"scanmod": 2, "action": 0, "trigoff": 0, "trigon": 0,
 }
 
 func genProgram(t *rapid.T, o GenOpts) Program {
@@ -72,13 +78,22 @@ func genProgram(t *rapid.T, o GenOpts) Program {
 		}
 		return defaultWeights[op]
 	}
+	p.ThrowOn = -1
+	if o.Triggers {
+		for range p.Schemas {
+			p.Trig = append(p.Trig, gen.Chance(t, "hastrigger", 75))
+		}
+		if gen.Chance(t, "throws", 40) {
+			p.ThrowOn = gen.Uniform(t, "throwon", 6)
+		}
+	}
 	var tranOps, globalOps []string
-	for _, op := range []string{"lookup", "scan", "output", "update", "delete", "reread", "scanmod"} {
+	for _, op := range []string{"lookup", "scan", "output", "update", "delete", "reread", "scanmod", "action"} {
 		for i := 0; i < weight(op); i++ {
 			tranOps = append(tranOps, op)
 		}
 	}
-	for _, op := range []string{"persist", "mergesync", "tick", "admin"} {
+	for _, op := range []string{"persist", "mergesync", "tick", "admin", "trigoff", "trigon"} {
 		for i := 0; i < weight(op); i++ {
 			globalOps = append(globalOps, op)
 		}
@@ -147,6 +162,13 @@ func genProgram(t *rapid.T, o GenOpts) Program {
 			in.Trim = rapid.Bool().Draw(t, "trim")
 		case "delete":
 			in.K = []int{gen.Uniform(t, "row", 31)}
+		case "action":
+			in.K = vals("k")
+			in.N = gen.Uniform(t, "col", 4)
+			in.Upd = rapid.Bool().Draw(t, "delnotupd")
+		}
+		if o.Triggers {
+			in.Trim = true
 		}
 		return in
 	}
@@ -183,6 +205,9 @@ func genProgram(t *rapid.T, o GenOpts) Program {
 			if in.Op == "admin" {
 				in.T = gen.Uniform(t, "t", nt)
 				in.K = []int{gen.Uniform(t, "ixcols", 6), gen.Uniform(t, "uniq", 3)}
+			}
+			if in.Op == "trigoff" || in.Op == "trigon" {
+				in.T = gen.Uniform(t, "t", nt)
 			}
 			p.Instrs = append(p.Instrs, in)
 			continue
@@ -291,6 +316,128 @@ type run struct {
 	labels                                                                                 map[string]int
 	states                                                                                 []*db19.DbState
 	foreign                                                                                *Violation
+	// triggers (C44)
+	prog       *Program
+	triglog    []trigCall
+	trigOff    map[string]int
+	nTrigCalls, nTrigThrow, nTrigCascade, nTrigDisabled, nAction int
+}
+
+type trigCall struct {
+	Table    string
+	Old, New Row
+	Tran     string
+}
+
+func (c trigCall) String() string { return fmt.Sprintf("%s %v->%v in %s", c.Table, c.Old, c.New, c.Tran) }
+
+const trigBoom = "trigger-boom"
+
+// installTriggers defines Trigger_<table> globals that record their calls.
+func (r *run) installTriggers() func() {
+	var names []string
+	for i, on := range r.prog.Trig {
+		if !on {
+			continue
+		}
+		td := r.w.Tables[i]
+		name := "Trigger_" + td.Name
+		names = append(names, name)
+		conv := func(v core.Value) Row {
+			rec, ok := v.(*core.SuRecord)
+			if !ok {
+				return nil // false = no row
+			}
+			row := make(Row, len(td.Cols))
+			for j, c := range td.Cols {
+				x := rec.Get(thread, core.SuStr(c))
+				if x != nil && x != core.EmptyStr {
+					row[j] = core.Pack(x.(core.Packable))
+				}
+			}
+			return row
+		}
+		fn := &core.SuBuiltin3{Fn: func(a1, a2, a3 core.Value) core.Value {
+			c := trigCall{Table: td.Name, Old: conv(a2), New: conv(a3), Tran: a1.String()}
+			r.triglog = append(r.triglog, c)
+			if r.prog.ThrowOn >= 0 {
+				bad := valDomain[r.prog.ThrowOn]
+				if (c.Old != nil && c.Old[0] == bad) || (c.New != nil && c.New[0] == bad) {
+					panic(trigBoom)
+				}
+			}
+			return nil
+		}, BuiltinParams: core.BuiltinParams{ParamSpec: core.ParamSpec{Nparams: 3, Flags: []core.Flag{0, 0, 0}, Names: []string{"t", "oldrec", "newrec"}}}}
+		core.Global.SetName(name, fn)
+	}
+	return func() {
+		for _, n := range names {
+			core.Global.SetName(n, nil)
+		}
+	}
+}
+
+// checkTriggers compares the trigger calls made during one operation with
+// the row changes the model predicts (as multisets; the order of cascaded
+// calls is not specified).
+func (r *run) checkTriggers(ts *tranState, what string, before int, chs []change, failed bool) (threw bool) {
+	if r.prog == nil || len(r.prog.Trig) == 0 {
+		return false
+	}
+	got := r.triglog[before:]
+	for _, c := range got {
+		if c.Tran != ts.ut.String() {
+			r.violate(fmt.Sprintf("%s: trigger call %v was given transaction %s, the changing transaction is %s", what, c, c.Tran, ts.ut.String()), "C44")
+		}
+	}
+	var want []string
+	throwExpected := false
+	for _, ch := range chs {
+		ti := -1
+		for i, td := range r.w.Tables {
+			if td.Name == ch.Table {
+				ti = i
+			}
+		}
+		if ti < 0 || ti >= len(r.prog.Trig) || !r.prog.Trig[ti] {
+			continue
+		}
+		if r.trigOff[ch.Table] > 0 {
+			r.nTrigDisabled++
+			continue
+		}
+		if ch.Old != nil && ch.New != nil && ch.Old.eq(ch.New) {
+			continue // not a different value
+		}
+		want = append(want, trigCall{Table: ch.Table, Old: ch.Old, New: ch.New, Tran: ts.ut.String()}.String())
+		if r.prog.ThrowOn >= 0 {
+			bad := valDomain[r.prog.ThrowOn]
+			if (ch.Old != nil && ch.Old[0] == bad) || (ch.New != nil && ch.New[0] == bad) {
+				throwExpected = true
+			}
+		}
+	}
+	if throwExpected {
+		r.nTrigThrow++
+		return true
+	}
+	if failed {
+		return false // refused operation: whatever was called before the refusal is not judged
+	}
+	var gots []string
+	for _, c := range got {
+		gots = append(gots, c.String())
+	}
+	sort.Strings(gots)
+	sort.Strings(want)
+	if strings.Join(gots, "\n") != strings.Join(want, "\n") {
+		r.violate(fmt.Sprintf("%s: trigger calls\n  got  %v\n  want %v", what, gots, want), "C44")
+	}
+	r.nTrigCalls += len(got)
+	if len(want) > 1 {
+		r.nTrigCascade++
+	}
+	return false
 }
 
 var traceOn = os.Getenv("VERIF_TRACE") != ""
@@ -717,6 +864,18 @@ func (r *run) exec(in Instr) {
 		}
 		td := ts.w.Tables[in.T%len(ts.w.Tables)]
 		row := rowFromK(in.K, len(td.Cols))
+		// mostly point foreign keys at an existing target row (otherwise nearly
+		// every source insert is refused and cascades never have anything to do)
+		for i := range td.Idx {
+			if fk := td.Idx[i].Fk; fk != nil && (in.K[3]+i)%4 != 0 {
+				if trs := ts.view.rows(fk.Table); len(trs) > 0 {
+					tr := trs[(in.K[2]+in.K[1])%len(trs)]
+					for j, c := range td.Idx[i].Cols[:len(fk.Cols)] {
+						row[c] = tr[fk.Cols[j]]
+					}
+				}
+			}
+		}
 		r.doWrite(ts, in, &logOp{Kind: "output", Table: td.Name, New: row}, 0)
 	case "update", "delete":
 		ts := r.tranOf(in)
@@ -727,6 +886,18 @@ func (r *run) exec(in Instr) {
 		rows := ts.view.rows(td.Name)
 		if len(rows) == 0 {
 			return
+		}
+		// prefer rows that are referenced by source rows (block / cascade paths)
+		if in.K[0]%3 != 0 {
+			var refd []Row
+			for _, row := range rows {
+				if hasSources(ts.w, ts.view, td, row) {
+					refd = append(refd, row)
+				}
+			}
+			if len(refd) > 0 {
+				rows = refd
+			}
 		}
 		old := rows[in.K[0]%len(rows)]
 		// a row must be read before it can be changed: look it up by its first key
@@ -805,7 +976,128 @@ func (r *run) exec(in Instr) {
 		}
 	case "admin":
 		r.doAdmin(in)
+	case "trigoff":
+		td := r.w.Tables[in.T%len(r.w.Tables)]
+		r.db.DisableTrigger(td.Name)
+		r.trigOff[td.Name]++
+		r.logf("  disable trigger %s (%d)", td.Name, r.trigOff[td.Name])
+	case "trigon":
+		td := r.w.Tables[in.T%len(r.w.Tables)]
+		if r.trigOff[td.Name] > 0 {
+			r.db.EnableTrigger(td.Name)
+			r.trigOff[td.Name]--
+			r.logf("  enable trigger %s (%d)", td.Name, r.trigOff[td.Name])
+		}
+	case "action":
+		ts := r.tranOf(in)
+		if !ts.isUpdate() || r.deadOp(ts, in) {
+			return
+		}
+		r.doAction(ts, in)
 	}
+}
+
+func litOf(raw string) string {
+	if raw == "" {
+		return `""`
+	}
+	return core.Unpack(raw).String()
+}
+
+// doAction runs a delete / update statement through the query language
+// (the third way rows change, besides the transaction API and cascades).
+func (r *run) doAction(ts *tranState, in Instr) {
+	td := ts.w.Tables[in.T%len(ts.w.Tables)]
+	v := valDomain[in.K[0]%len(valDomain)]
+	var stmt string
+	col := td.Cols[1+in.N%(len(td.Cols)-1)]
+	nv := valDomain[in.K[1]%len(valDomain)]
+	if in.Upd {
+		stmt = fmt.Sprintf("delete %s where a is %s", td.Name, litOf(v))
+	} else {
+		stmt = fmt.Sprintf("update %s where a is %s set %s = %s", td.Name, litOf(v), col, litOf(nv))
+	}
+	// model: the rows with a == v, one after another
+	tmp := ts.view.clone()
+	var chs []change
+	var ref *Refusal
+	var ops []*logOp
+	for _, row := range ts.view.rows(td.Name) {
+		if row[0] != v {
+			continue
+		}
+		if _, ok := tmp[td.Name][pkOf(td, row)]; !ok {
+			continue // already removed by a cascade of an earlier row
+		}
+		var c []change
+		op := &logOp{Kind: "delete", Table: td.Name, Old: row}
+		if in.Upd {
+			ref, c = ts.w.Delete(tmp, td.Name, row)
+		} else {
+			nw := row.clone()
+			nw[td.colPos(col)] = nv
+			op = &logOp{Kind: "update", Table: td.Name, Old: row, New: nw}
+			if selfRefKeyAndFk(td, row, nw) {
+				return
+			}
+			ref, c = ts.w.Update(tmp, td.Name, row, nw)
+		}
+		if ref != nil {
+			break
+		}
+		chs = append(chs, c...)
+		ops = append(ops, op)
+	}
+	trigBefore := len(r.triglog)
+	n := 0
+	err := catch(func() { n = query.DoAction(thread, ts.ut, stmt) })
+	r.logf("  #%d action %q : model %v (%d changes), real %q n=%d", ts.id, stmt, ref, len(chs), err, n)
+	r.syncChecker()
+	r.nAction++
+	if ref == nil {
+		if r.checkTriggers(ts, fmt.Sprintf("transaction #%d %q", ts.id, stmt), trigBefore, chs, err != "") {
+			if !strings.Contains(err, trigBoom) {
+				r.violate(fmt.Sprintf("transaction #%d: %q: a trigger threw but the statement returned %q", ts.id, stmt, err), "C44")
+			}
+			r.abortAfterTrigger(ts)
+			return
+		}
+	}
+	if err != "" || ref != nil {
+		// a statement that fails part way is rolled back by its caller here
+		if err == "" && ref != nil {
+			prop := "C07"
+			if ref.Kind == "fk" {
+				prop = "C08"
+			}
+			r.violate(fmt.Sprintf("transaction #%d: %q succeeded but must be refused (%v)", ts.id, stmt, ref), prop)
+		}
+		r.abortAfterTrigger(ts)
+		return
+	}
+	ts.view = tmp
+	for _, op := range ops {
+		ts.events = append(ts.events, event{op: op})
+		ts.nops++
+	}
+	r.verifyOwnView(ts, "after "+stmt, "C24", "C08", "C06")
+	r.afterOp(ts)
+}
+
+// abortAfterTrigger: the caller of an operation whose trigger threw does not
+// swallow the exception: the transaction is rolled back; nothing of it may be
+// visible afterwards.
+func (r *run) abortAfterTrigger(ts *tranState) {
+	ts.ut.Abort()
+	r.syncChecker()
+	for i, x := range r.slots {
+		if x == ts {
+			r.slots[i] = nil
+		}
+	}
+	ts.dead, ts.why = true, "trigger exception"
+	r.logf("  #%d rolled back after trigger exception", ts.id)
+	r.verifyCommitted(fmt.Sprintf("after rollback of #%d (trigger exception)", ts.id))
 }
 
 // deadOp: an operation on a transaction that has failed must fail too.
@@ -1004,6 +1296,7 @@ func (r *run) applyWrite(ts *tranState, in Instr, op *logOp, off uint64) bool {
 			identical = false
 		}
 	}
+	trigBefore := len(r.triglog)
 	err := catch(func() {
 		switch op.Kind {
 		case "output":
@@ -1016,6 +1309,16 @@ func (r *run) applyWrite(ts *tranState, in Instr, op *logOp, off uint64) bool {
 	})
 	r.logf("  #%d %v : model %v, real %q", ts.id, op, ref, err)
 	r.syncChecker()
+	if ref == nil {
+		if r.checkTriggers(ts, fmt.Sprintf("transaction #%d %v", ts.id, op), trigBefore, chs, err != "") {
+			// the model says a trigger throws during this operation
+			if !strings.Contains(err, trigBoom) {
+				r.violate(fmt.Sprintf("transaction #%d: %v: a trigger threw but the operation returned %q", ts.id, op, err), "C44")
+			}
+			r.abortAfterTrigger(ts)
+			return false
+		}
+	}
 	if err == "" {
 		if ref != nil {
 			prop := "C07"
@@ -1049,6 +1352,9 @@ func (r *run) applyWrite(ts *tranState, in Instr, op *logOp, off uint64) bool {
 			r.nRefusedDup++
 		} else {
 			r.nRefusedFk++
+			if strings.Contains(ref.Why, "blocked by") {
+				r.label("refused_target_change_with_sources")
+			}
 		}
 	}
 	if f := ts.ut.VerifFailure(); f != "" || isTranEnded(err) {
@@ -1312,6 +1618,11 @@ func RunProgram(p Program, cfg Config) (viol *Violation, st Stats) {
 	}
 	r.w = loadWorld(r.db, r.names)
 	r.slots = make([]*tranState, 8)
+	r.prog = &p
+	r.trigOff = map[string]int{}
+	if len(p.Trig) > 0 {
+		defer r.installTriggers()()
+	}
 	for i, in := range p.Instrs {
 		r.logf("%d: %v", i, in)
 		r.exec(in)
@@ -1366,6 +1677,11 @@ func RunProgram(p Program, cfg Config) (viol *Violation, st Stats) {
 	l["exclusive_abort"] = r.nExclusive
 	l["dead_tran_ops_checked"] = r.nDeadOpChecked
 	l["unexpected_refusal"] = r.nUnexpectedRefusal
+	l["trigger_calls"] = r.nTrigCalls
+	l["trigger_threw"] = r.nTrigThrow
+	l["trigger_cascaded_calls"] = r.nTrigCascade
+	l["trigger_suppressed_while_disabled"] = r.nTrigDisabled
+	l["query_actions"] = r.nAction
 	st.Log = r.log
 	return nil, st
 }
@@ -1392,6 +1708,22 @@ func selfRefKeyAndFk(td *TableDef, old, nw Row) bool {
 		newFk := ix.tuple(nw)[:len(ix.Fk.Cols)]
 		if !tupleEq(oldKey, newKey) && !tupleEmpty(newFk) && tupleEq(newFk, oldKey) {
 			return true
+		}
+	}
+	return false
+}
+
+func hasSources(w *World, m MDB, td *TableDef, row Row) bool {
+	for i := range td.Idx {
+		ix := &td.Idx[i]
+		key := ix.tuple(row)
+		if tupleEmpty(key) {
+			continue
+		}
+		for j := range ix.FkToHere {
+			if len(sourcesOf(m, &ix.FkToHere[j], key)) > 0 {
+				return true
+			}
 		}
 	}
 	return false
